@@ -72,7 +72,16 @@ def export(kind='server'):
             args = [BIN, '-o', tmp, '-dir', REPO]
             if kind == 'client':
                 e['CGO_ENABLED'] = '0'
-                args += ['-overlay', os.path.join(VERIF, 'tools', 'hid_overlay.json')]
+                # the USB HID dependency is cgo-only on Linux: the client packages are type-checked against a pure-Go stand-in
+                # (tools/overlay), wired in through an alternate go.mod (-modfile) that replaces github.com/flynn/hid
+                hd = subprocess.run(['go', 'list', '-m', '-f', '{{.Dir}}', 'github.com/flynn/hid'], cwd=REPO, env=e, capture_output=True, text=True).stdout.strip()
+                cm = os.path.join(OUT, 'clientmod'); shutil.rmtree(cm, ignore_errors=True); os.makedirs(os.path.join(cm, 'hid'))
+                shutil.copy(os.path.join(hd, 'hid.go'), os.path.join(cm, 'hid', 'hid.go')); os.chmod(os.path.join(cm, 'hid', 'hid.go'), 0o644)
+                shutil.copy(os.path.join(VERIF, 'tools', 'overlay', 'flynn_hid_nocgo.go'), os.path.join(cm, 'hid', 'nocgo.go'))
+                open(os.path.join(cm, 'hid', 'go.mod'), 'w').write('module github.com/flynn/hid\n\ngo 1.12\n')
+                open(os.path.join(cm, 'go.mod'), 'w').write(open(os.path.join(REPO, 'go.mod')).read() + f'\nreplace github.com/flynn/hid => {os.path.join(cm, "hid")}\n')
+                shutil.copy(os.path.join(REPO, 'go.sum'), os.path.join(cm, 'go.sum'))
+                e['GOFLAGS'] = e.get('GOFLAGS', '-mod=mod') + ' -modfile=' + os.path.join(cm, 'go.mod')
             t = time.time()
             r = subprocess.run(args + roots, cwd=REPO, env=e, capture_output=True, text=True, timeout=900)
             if r.returncode != 0:
